@@ -329,6 +329,36 @@ func c01Mixed(env *core.Env, group string, tns []string, seed uint64, viaContain
 		r := fx.Eval(env, src, in, nil, nil)
 		c01Judge(env, "stream2m", "mixed:"+group, src, r)
 	}
+	// the same paths compiled with Permissive (wrappers stay in the collection between steps)
+	for _, src := range append([]string{prefix + ".id", prefix + ".meta.lastUpdated", prefix + ".children().count()", prefix + ".ofType(Patient).id"}, srcs...) {
+		r := fx.EvalK(env, "permissive", src, in, []fhirpath.CompileOption{compopts.Permissive()}, nil)
+		c01Judge(env, "stream2m", "mixed-permissive:"+group, src, r)
+	}
+	// wrappers (filled, empty, packed in an Any) supplied as environment values and navigated
+	var wrappers []any
+	wrappers = append(wrappers, &bcrpb.ContainedResource{})
+	if a, err := anypb.New(&bcrpb.ContainedResource{}); err == nil {
+		wrappers = append(wrappers, a)
+	}
+	if b, ok := res.(*bcrpb.Bundle); ok && len(b.Entry) > 0 && b.Entry[0].Resource != nil {
+		wrappers = append(wrappers, b.Entry[0].Resource)
+	}
+	if b, ok := res.(*basicpb.Basic); ok && len(b.Contained) > 0 {
+		wrappers = append(wrappers, b.Contained[0])
+	}
+	for wi, w := range wrappers {
+		for _, src := range []string{"%w.id", "%w." + g, "%w.children().count()", "%w.descendants().count()", "%w.meta.versionId", "%w.where(id.exists()).count()", "%w.select(id)", "%w.ofType(Patient)", "%w = %w", "%w.exists()"} {
+			for _, perm := range []bool{false, true} {
+				var co []fhirpath.CompileOption
+				key := "default"
+				if perm {
+					co, key = []fhirpath.CompileOption{compopts.Permissive()}, "permissive"
+				}
+				r := fx.EvalK(env, key, src, in, co, []fhirpath.EvaluateOption{evalopts.EnvVariable("w", w)})
+				c01Judge(env, "stream2m", fmt.Sprintf("wrapper-variable:%d:%s", wi, key), src, r)
+			}
+		}
+	}
 	unrooted = append(unrooted, g, g+".count()", "id", "meta.lastUpdated", "descendants().count()")
 	for _, src := range unrooted {
 		for _, m := range members {
